@@ -1248,7 +1248,7 @@ Definition catch (o : outcome) : outcome :=
   end.
 
 Lemma handle_data_first cfg ok st data : state (h_request st) <> COMPLETE ->
-  handle_data cfg ok st data = catch (parse_first_request cfg ok st data).
+  handle_data cfg ok st data = catch (first_remainder cfg (parse_first_request cfg ok st data)).
 Proof. intros H. unfold handle_data. apply N.eqb_neq in H. rewrite H. reflexivity. Qed.
 
 Lemma handle_data_later cfg ok st data : state (h_request st) = COMPLETE -> h_plugin st = true ->
@@ -1258,21 +1258,31 @@ Proof. intros H Hp. unfold handle_data. rewrite H, Hp. reflexivity. Qed.
 Lemma feed_last cfg ok st x : feed cfg ok st [x] = handle_data cfg ok st x.
 Proof. cbn [feed]. destruct (handle_data cfg ok st x) as [[|] st'|e st']; reflexivity. Qed.
 
+(* nothing follows a request that is still incomplete, nor one whose parser kept no remainder *)
+Lemma first_remainder_incomplete cfg st : is_complete (h_request st) = false ->
+  first_remainder cfg (Done false st) = Done false st.
+Proof.
+  intros H. unfold first_remainder. rewrite H. destruct (buffer (h_request st)) as [[|b0 bt]|]; reflexivity.
+Qed.
+Lemma first_remainder_none cfg st : buffer (h_request st) = None -> first_remainder cfg (Done false st) = Done false st.
+Proof. intros H. unfold first_remainder. now rewrite H. Qed.
+
 (* ---- first request ---- *)
 Lemma feed_first cfg ok pf : forall segs st,
   parser_inv (h_request st) -> state (h_request st) <> COMPLETE -> nonempty_pieces segs ->
   parse (h_request st) (concat segs) = Ok pf -> state pf = COMPLETE -> buffer pf = None ->
   http_handler_protocol pf = HTTP_PROXY ->
-  feed cfg ok st segs = catch (on_request_complete cfg ok (set_plugin (set_request st pf))).
+  feed cfg ok st segs = catch (first_remainder cfg (on_request_complete cfg ok (set_plugin (set_request st pf)))).
 Proof.
   induction segs as [|x t IH]; intros st I N F H C B Hp.
   - exfalso. cbn [concat] in H. unfold parse in H. rewrite (parse_with_nil _ _ I) in H. congruence.
   - inversion F as [|? ? Fx Ft]; subst. cbn [concat] in H.
     destruct (pieces_progress _ x t pf I Ft H C B) as (q1 & H1 & I1 & [[-> ->]|(Tn & N1 & H2)]).
     + rewrite feed_last, handle_data_first by exact N. unfold parse_first_request. rewrite H1.
-      unfold is_complete. rewrite C. cbn [negb N.eqb]. change (COMPLETE =? COMPLETE) with true. cbn [negb]. now rewrite Hp.
+      unfold is_complete. rewrite C. change (COMPLETE =? COMPLETE) with true. cbn [negb]. now rewrite Hp.
     + cbn [feed]. rewrite handle_data_first by exact N. unfold parse_first_request. rewrite H1.
-      unfold is_complete. apply N.eqb_neq in N1. rewrite N1. cbn [negb catch].
+      unfold is_complete at 1. apply N.eqb_neq in N1. rewrite N1. cbn [negb].
+      rewrite first_remainder_incomplete by (unfold is_complete; cbn [h_request set_request]; exact N1). cbn [catch].
       apply N.eqb_neq in N1. exact (IH (set_request st q1) I1 N1 Ft H2 C B Hp).
 Qed.
 
@@ -1286,56 +1296,61 @@ Record conn_ready (st : hstate) : Prop := {
 Definition cur (st : hstate) : parser :=
   match h_pipeline st with Some q => q | None => new_parser REQUEST_PARSER end.
 
-(* what on_client_data does with the forwarded request *)
+(* the state after a pipelined request was forwarded *)
 Definition after_forward (st : hstate) (q'' : parser) (w : bytes) : hstate :=
   match h_upstream st with
   | Some up => set_pipeline (set_upstream st (Some (queue_upstream up w)))
-                            (if is_connection_upgrade q'' then Some q'' else None)
+                            (if is_connection_upgrade q'' then Some (clear_buffer q'') else None)
   | None => st
   end.
 
+Lemma on_client_data_one cfg st raw o : on_client_data_round cfg st raw = (o, None) -> on_client_data cfg st raw = o.
+Proof.
+  intros H. unfold on_client_data. cbn [on_client_data_loop]. rewrite H. destruct o as [[|] st'|e st']; reflexivity.
+Qed.
+
 Lemma on_client_data_step cfg st raw q' : conn_ready st -> cf_upgrade_complete cfg = true ->
   state (cur st) <> COMPLETE -> parse (cur st) raw = Ok q' ->
-  on_client_data cfg st raw =
+  on_client_data_round cfg st raw =
   if is_complete q' then
     match queue_request_for_upstream cfg false q' with
-    | Err e => Raised e (set_pipeline st (Some q'))
-    | Ok (q'', w) => Done false (after_forward st q'' w)
+    | Err e => (Raised e (set_pipeline st (Some q')), None)
+    | Ok (q'', w) => (Done false (after_forward st q'' w), buffer q'')
     end
-  else Done false (set_pipeline st (Some q')).
+  else (Done false (set_pipeline st (Some q')), None).
 Proof.
-  intros R Cu N H. destruct R as [Rc Rt Rp (up & Ru & Rcl)]. unfold on_client_data, after_forward. rewrite Ru, Rcl.
+  intros R Cu N H. destruct R as [Rc Rt Rp (up & Ru & Rcl)]. unfold on_client_data_round, after_forward, after_pipelined. rewrite Ru, Rcl.
   unfold is_complete at 1. rewrite Rc, Rt. change (COMPLETE =? COMPLETE) with true. cbn [negb andb].
   unfold cur in N, H. destruct (h_pipeline st) as [q|].
-  - rewrite Cu. cbn [negb orb]. unfold is_complete at 1. apply N.eqb_neq in N. rewrite N. cbn [andb]. rewrite H. reflexivity.
-  - rewrite H. reflexivity.
+  - rewrite Cu. cbn [negb orb]. unfold is_complete at 1. apply N.eqb_neq in N. rewrite N. cbn [andb]. rewrite H.
+    destruct (is_complete q'); [|reflexivity]. destruct (queue_request_for_upstream cfg false q') as [[q'' w]|e]; reflexivity.
+  - rewrite H. destruct (is_complete q'); [|reflexivity]. destruct (queue_request_for_upstream cfg false q') as [[q'' w]|e]; reflexivity.
 Qed.
 
 Lemma conn_ready_pipeline st q : conn_ready st -> conn_ready (set_pipeline st q).
 Proof. intros [A B C D]. constructor; assumption. Qed.
 
-Lemma feed_later cfg ok pf : forall segs st,
+Lemma feed_later cfg ok pf q'' w : forall segs st,
   conn_ready st -> cf_upgrade_complete cfg = true ->
   parser_inv (cur st) -> state (cur st) <> COMPLETE -> nonempty_pieces segs ->
   parse (cur st) (concat segs) = Ok pf -> state pf = COMPLETE -> buffer pf = None ->
-  feed cfg ok st segs =
-  catch (match queue_request_for_upstream cfg false pf with
-         | Err e => Raised e (set_pipeline st (Some pf))
-         | Ok (q'', w) => Done false (after_forward st q'' w)
-         end).
+  queue_request_for_upstream cfg false pf = Ok (q'', w) -> buffer q'' = None ->
+  feed cfg ok st segs = Done false (after_forward st q'' w).
 Proof.
-  induction segs as [|x t IH]; intros st R Cu I N F H C B.
+  induction segs as [|x t IH]; intros st R Cu I N F H C B Hq Hb.
   - exfalso. cbn [concat] in H. unfold parse in H. rewrite (parse_with_nil _ _ I) in H. congruence.
   - inversion F as [|? ? Fx Ft]; subst. cbn [concat] in H.
     destruct (pieces_progress _ x t pf I Ft H C B) as (q1 & H1 & I1 & [[-> ->]|(Tn & N1 & H2)]).
     + rewrite feed_last, handle_data_later by apply R.
-      rewrite (on_client_data_step cfg st x pf R Cu N H1). unfold is_complete. rewrite C. reflexivity.
+      rewrite (on_client_data_one cfg st x (Done false (after_forward st q'' w))); [reflexivity|].
+      rewrite (on_client_data_step cfg st x pf R Cu N H1). unfold is_complete. rewrite C. change (COMPLETE =? COMPLETE) with true.
+      cbv iota. rewrite Hq, Hb. reflexivity.
     + cbn [feed]. rewrite handle_data_later by apply R.
-      rewrite (on_client_data_step cfg st x q1 R Cu N H1). unfold is_complete. apply N.eqb_neq in N1. rewrite N1. cbn [catch].
-      apply N.eqb_neq in N1.
-      pose proof (IH (set_pipeline st (Some q1)) (conn_ready_pipeline st _ R) Cu I1 N1 Ft H2 C B) as G.
-      rewrite G. destruct (queue_request_for_upstream cfg false pf) as [[q'' w]|e]; [|reflexivity].
-      destruct R as [_ _ _ (up & Ru & _)]. unfold after_forward. cbn [h_upstream set_pipeline]. rewrite Ru. reflexivity.
+      rewrite (on_client_data_one cfg st x (Done false (set_pipeline st (Some q1)))).
+      2:{ rewrite (on_client_data_step cfg st x q1 R Cu N H1). unfold is_complete. apply N.eqb_neq in N1. now rewrite N1. }
+      cbn [catch].
+      pose proof (IH (set_pipeline st (Some q1)) (conn_ready_pipeline st _ R) Cu I1 N1 Ft H2 C B Hq Hb) as G.
+      rewrite G. destruct R as [_ _ _ (up & Ru & _)]. unfold after_forward. cbn [h_upstream set_pipeline]. rewrite Ru. reflexivity.
 Qed.
 
 (* ---- composition: one well-formed request through the handler ---- *)
@@ -1444,6 +1459,9 @@ Proof.
   unfold on_request_complete. cbn [h_request set_plugin set_request].
   rewrite (auth_ok_wf cfg r p Pa Wa). destruct (connect_ok_wf r p Wr Pa) as [c ->]. cbn [negb].
   rewrite Ht. destruct (queued_wf cfg r p Wr Pa) as (p' & -> & S & Eu).
+  assert (Bp' : buffer p' = None).
+  { destruct S as (_ & _ & _ & _ & _ & _ & _ & _ & _ & _ & Sb). rewrite Sb. exact (pa_buffer r p Pa). }
+  rewrite first_remainder_none by exact Bp'.
   cbn [catch]. eexists. eexists. split; [reflexivity|]. split; [reflexivity|].
   split; [exact (forward_ref cfg r p Wr Wc Pa)|]. split; [|split].
   - destruct S as (_ & Ss & _ & _ & _ & _ & _ & _ & _ & St & _).
@@ -1468,10 +1486,13 @@ Proof.
   intros Wr Wc R Hn F E. destruct (parse_request r Wr) as (p & Hp & Pa).
   destruct (wf_cfg_parts cfg Wc) as (_ & Cu & _).
   assert (Ec : cur st = new_parser REQUEST_PARSER) by (unfold cur; now rewrite Hn).
-  rewrite (feed_later cfg true p segs st R Cu); try (rewrite Ec).
+  destruct (queued_wf cfg r p Wr Pa) as (p' & Hq & S & Eu).
+  assert (Bp' : buffer p' = None).
+  { destruct S as (_ & _ & _ & _ & _ & _ & _ & _ & _ & _ & Sb). rewrite Sb. exact (pa_buffer r p Pa). }
+  rewrite (feed_later cfg true p p' (forward_of_parsed cfg false p) segs st R Cu); try (rewrite Ec);
+    try exact Hq; try exact Bp'.
   2:{ apply parser_inv_new. } 2:{ discriminate. } 2:{ exact F. } 2:{ rewrite E. exact Hp. }
   2:{ exact (pa_state r p Pa). } 2:{ exact (pa_buffer r p Pa). }
-  destruct (queued_wf cfg r p Wr Pa) as (p' & -> & S & Eu). cbn [catch].
   pose proof R as [Rc Rt Rp (up & Ru & Rcl)]. unfold after_forward. rewrite Ru.
   eexists. eexists. split; [reflexivity|]. split.
   { unfold upstream_queue. cbn [h_upstream set_pipeline set_upstream queue_upstream up_queue]. now rewrite Ru. }
